@@ -110,6 +110,9 @@ def main(argv=None):
             reasons.append(f"deciding monitor/stratum '{key}' observed nothing")
     if merged["evaluations"] == 0:
         reasons.append("no case executed")
+    for key, v in merged["counters"].items():
+        if key.startswith("contract_internal_error:") and v > 0:
+            reasons.append(f"{key}={v}: a monitor raised internally on the generated workload")
 
     # ---- evidence --------------------------------------------------------------------------
     wall = time.time() - t0
@@ -178,7 +181,12 @@ def replay(pid, mod, path):
     if hasattr(mod, "install"):
         mod.install(rec)
     rec.current_case = r["case"]
-    mod.run_case(r["case"], rec)
+    if isinstance(r["case"], dict) and r["case"].get("kind") == "suite":
+        from . import contracts, suite
+        contracts.unwrap_all()
+        suite.run_suite(f"checks.{pid.lower()}", rec)   # the witness came from the repository's own tests: run them again
+    else:
+        mod.run_case(r["case"], rec)
     hit = [v for v in rec.violations.values()]
     same = [v for v in hit if v["monitor"] == r.get("monitor") and v["mechanism"] == r.get("mechanism")]
     for v in hit:
